@@ -307,3 +307,13 @@ def impl_protect_seq(arg, symbolic=True):
             except Exception as exc:  # noqa: BLE001
                 outs.append(classify(exc))
     return outs
+
+
+def protect_with_env(penv, draws, data, sid, symbolic=True):
+    """ncrypt_protect_secret with the DC replaced by the given (public-key or seed) envelope"""
+    import dpapi_ng
+
+    with _Env(draws=draws, symbolic=symbolic) as env:
+        pe = env_obj(penv)
+        env.CL._sync_get_key = lambda *a, **k: pe
+        return dpapi_ng.ncrypt_protect_secret(bytes(data), sid, server="dc.test")
